@@ -165,6 +165,8 @@ pub fn main_with(all: fn() -> Vec<Entry>) {
         }
         "sweep" => {
             quiet_panics();
+            crash::install();
+            crash::set_current("sweep");
             let prop = prop.expect("--prop");
             let cfg = arg(&args, "--config").expect("--config");
             let len: usize = arg(&args, "--len").unwrap().parse().unwrap();
